@@ -8,8 +8,11 @@ Spec (what the documentation says each call does, per data-sheet bit field): `Nr
               registers + CE + chip variant + the chip's log of reserved/out-of-range writes,
               ghost reading address of pipe 0) and documented result; `.error e` = rejected
   `CfgOk`     every register within its documented range, no reserved bit, nothing reserved or
-              out of range ever logged (`LogOk`: `SETUP_AW:illegal:0` — the library documents
-              2-byte addresses — and `CE:` entries are not C03's concern)
+              out of range ever logged — WITH AN EXCEPTION built into `LogOk`: the entry
+              `SETUP_AW:illegal:0` is exempt (`address_length = 2`, and every value outside 3..5 such
+              as 9, makes the driver WRITE SETUP_AW = 0, a value the data sheet calls illegal; the
+              library documents 2-byte addresses), and `CE:` entries are not C03's concern.  So "no
+              reserved / out-of-range write" is proved for everything EXCEPT SETUP_AW = 0.
   `Call.dom`  the explored domain: addresses of at most 5 bytes (explicit hypothesis), carrier
               wave test on the plus variant only
 Invariant (`NrfProofs/C03/Base.lean`): `Inv s` = the object's radio exists ∧ `Cached` (every shadow
@@ -171,12 +174,17 @@ example : ∃ s : DrvState, s.Wf ∧ RadioShape s.cfg ∧ LogOk s.cfg.violations
     (s.w.radio s.d.rid).plus = false ∧ (s.w.radio s.d.rid).featureVisible = false :=
   ⟨nonplusWorld false, by unfold DrvState.Wf; decide, by constructor <;> decide, (by intro e he; cases he), rfl, rfl, rfl⟩
 
-/-- **Getters agree with setters.**  For every attribute field `f` (`Field`: channel, data rate, PA
+/-- **Field non-interference** (named "getters agree with setters"; what is proved is about the raw
+    register FIELDS `obs f`, not about getter return values: getters that read several fields —
+    `crc`, `ack`, `listen` — can change their answer when another field's owner is called, e.g.
+    `set_auto_ack(True)` changes what `crc` returns although it does not own `crcBits`.  The immediate
+    set→get round trip for 15 attributes is `C03_roundtrip`, on the documented encoder `docStep`.)
+    For every attribute field `f` (`Field`: channel, data rate, PA
     level, LNA, CRC bits, address length, ARD, ARC, auto-ack mask, dynamic-payload mask, the six
     payload lengths, ACK payloads, ask-no-ack, the three IRQ masks, power, role, pipe mask, the
     addresses): a call that does not own `f` (`owns`) leaves the value `obs f` unchanged, so after
-    a setter and any sequence of calls that do not own the field the getter still returns the
-    clamped value that setter established.  (`getter_after_setter` instances below.) -/
+    a setter and any sequence of calls that do not own the field the FIELD still holds the
+    clamped value that setter established (no lemma composes this with a getter call). -/
 theorem C03_getter_agrees (f : Field) (cs : List Call) (a : CfgSt) (ha : CfgOk a.r) (hu : P0Ok a.user0)
     (hd : ∀ c ∈ cs, c.dom a.r.plus) (hown : ∀ c ∈ cs, owns c f = false) :
     obs f (docRun cs a).2.r = obs f a.r :=
